@@ -50,7 +50,7 @@ class Sequence(object):
     assert wilds <= 1, "Too many wildcards in sequence %s" % name
     if wilds == 0: # no wildcards
       seq_lengths = sum(lengths)
-      if length:
+      if length is not None:
         assert length == seq_lengths, "Length mismatch for sequence %s (%r != %r)" % (name, length, seq_lengths)
       else: # If length was not specified (None), we set it
         length = seq_lengths
